@@ -264,7 +264,38 @@ def gen_consts(repo):
     else:
         raise ExtractError("do_request: response loop not recognised")
     reqid = ctype = None
+    reqid_ci = False
+
+    def ci_reqid_test(t):
+        """`not any(name.lower() == '<literal>' for name in headers)` -> the literal, else None"""
+        if not (isinstance(t, ast.UnaryOp) and isinstance(t.op, ast.Not) and isinstance(t.operand, ast.Call)
+                and _is_name(t.operand.func, "any") and len(t.operand.args) == 1 and not t.operand.keywords
+                and isinstance(t.operand.args[0], ast.GeneratorExp)):
+            return None
+        g = t.operand.args[0]
+        if not (len(g.generators) == 1 and isinstance(g.generators[0].target, ast.Name) and not g.generators[0].ifs
+                and _is_name(g.generators[0].iter, "headers") and not g.generators[0].is_async):
+            return None
+        var = g.generators[0].target.id
+        e = g.elt
+        if not (isinstance(e, ast.Compare) and len(e.ops) == 1 and isinstance(e.ops[0], ast.Eq)
+                and isinstance(e.left, ast.Call) and isinstance(e.left.func, ast.Attribute) and e.left.func.attr == "lower"
+                and _is_name(e.left.func.value, var) and not e.left.args and not e.left.keywords):
+            return None
+        return _const(e.comparators[0], str)
     for n in ast.walk(dr):
+        if (isinstance(n, ast.If) and ci_reqid_test(n.test) is not None and len(n.body) == 1
+                and isinstance(n.body[0], ast.Assign) and not n.orelse):
+            tg = n.body[0].targets
+            v = n.body[0].value
+            if not (len(tg) == 1 and isinstance(tg[0], ast.Subscript) and _is_name(tg[0].value, "headers")
+                    and isinstance(v, ast.Call) and _is_attr(v.func, "self", "_generate_request_id")):
+                raise ExtractError("do_request: unrecognised request id clause")
+            if reqid:
+                raise ExtractError("do_request: two request id clauses")
+            reqid = (ci_reqid_test(n.test), _const(tg[0].slice, str))
+            reqid_ci = True
+            continue
         if (isinstance(n, ast.If) and isinstance(n.test, ast.Compare) and len(n.test.ops) == 1
                 and isinstance(n.test.ops[0], ast.NotIn) and _is_name(n.test.comparators[0], "headers")
                 and len(n.body) == 1 and isinstance(n.body[0], ast.Assign) and not n.orelse):
@@ -329,6 +360,7 @@ def gen_consts(repo):
             f"Definition hdr_copy : bool := {SX.cbool(hdr_copy)}.\n"
             f"Definition resp_reversed : bool := {SX.cbool(resp_reversed)}.\n"
             f"Definition clone_wraps_nonlist : bool := {SX.cbool(clone_wraps_nonlist)}.\n"
+            f"Definition reqid_ci : bool := {SX.cbool(reqid_ci)}.\n"
             + S("basic_assert_key", basic[0]) + S("basic_set_key", basic[1]) + S("basic_prefix", basic[2]) + S("basic_sep", basic[3])
             + S("client_assert_key", client[0]) + S("client_set_key", client[1]) + S("client_prefix", client[2]) + S("client_sep", client[3])
             + S("token_assert_key", token[0]) + S("token_set_key", token[1]) + S("token_prefix", token[2])
